@@ -453,20 +453,36 @@ def validate_traces(module, cfg, traces, spec_dir, out_dir, tag="trace", timeout
 # --------------------------------------------------------------------------
 # C44: the real PeakStats callback fed with documents
 # --------------------------------------------------------------------------
-def peakstats_run(xs, ys, edge=None):
-    """start / descriptor / event... / stop through bluesky.callbacks.fitting.PeakStats; returns its attributes"""
+def peakstats_run(xs, ys, edge=None, other=None):
+    """start / descriptor / event... / stop through bluesky.callbacks.fitting.PeakStats; returns its attributes.
+    other: "mot" | "det" -- the run also has a second stream (baseline-like) whose events carry only that one of the two
+    fields, before, between and after the data points: they are not data PeakStats was given for (x, y)"""
     import warnings
     from bluesky.callbacks.fitting import PeakStats
     ps = PeakStats("mot", "det", edge_count=edge)
+    nb = [0]
+
+    def extra():
+        if other:
+            nb[0] += 1
+            ps("event", {"uid": f"b{nb[0]}", "descriptor": "descb", "seq_num": nb[0], "time": 0.5,
+                         "data": {other: 977.0 + nb[0]}, "timestamps": {other: 0.0}})
     with warnings.catch_warnings():
         warnings.simplefilter("ignore")
         ps("start", {"uid": "run", "time": 0.0, "scan_id": 1})
         ps("descriptor", {"uid": "desc", "run_start": "run", "time": 0.0, "name": "primary",
                           "data_keys": {"mot": {"source": "v", "dtype": "number", "shape": []},
                                         "det": {"source": "v", "dtype": "number", "shape": []}}})
+        if other:
+            ps("descriptor", {"uid": "descb", "run_start": "run", "time": 0.0, "name": "baseline",
+                              "data_keys": {other: {"source": "v", "dtype": "number", "shape": []}}})
+        extra()
         for i, (a, b) in enumerate(zip(xs, ys)):
             ps("event", {"uid": f"ev{i}", "descriptor": "desc", "seq_num": i + 1, "time": float(i),
                          "data": {"mot": a, "det": b}, "timestamps": {"mot": 0.0, "det": 0.0}})
+            if i == 0:
+                extra()
+        extra()
         ps("stop", {"uid": "stop", "run_start": "run", "time": 1.0, "exit_status": "success"})
 
     def num(v):
